@@ -70,6 +70,31 @@ def run(pm, ctx):
                               f"a function of its arguments", line=stores[0].lineno, site=site)
             else:
                 ctx.unrecognised("C13-d", site, f"`{norm_src(stores[0])}` is written during the evaluation")
+    ctx.rule("C13-e", "a score vanishes (chi-square family: equals its offset 1/2) whenever the predictions do not depend on the sample: the score "
+             "term with y[n,k] replaced by c[k] (sum_k c[k] = 1) normalises to that constant", floor=12)
+    from ..e8_gemini import check_independence
+    from ..e8_index import Unsupported as E8Unsupported, Poly as E8Poly
+    for cname in GEMINI_CLASSES:
+        ci, f = evaluate_func(pm, cname)
+        for ovo in (False, True):
+            site = f"{cname}.evaluate[ovo={ovo}]: value at sample-independent predictions"
+            want = E8Poly.const(1) * E8Poly.const(0.5) if cname == "ChiSquareGEMINI" else E8Poly()
+            if cname == "ChiSquareGEMINI":
+                from fractions import Fraction
+                want = E8Poly.const(Fraction(1, 2))
+            try:
+                got = check_independence(pm, cname, ovo)
+            except E8Unsupported as e:
+                ctx.unrecognised("C13-e", site, f"outside the translated numpy subset: {e}")
+                continue
+            if got == want:
+                ctx.ok("C13-e", site, f"= {want!r}")
+            elif got.is_const():
+                ctx.violation("C13-e", ci.unit.relpath, f"{cname}.evaluate", f"score[ovo={ovo}] at y[n,k]=c[k]", f"when the predictions do not depend on the sample the "
+                              f"score is {got!r}, not {want!r}", line=f.lineno, site=site)
+            else:
+                ctx.violation("C13-e", ci.unit.relpath, f"{cname}.evaluate", f"score[ovo={ovo}] at y[n,k]=c[k]", f"when the predictions do not depend on the sample the "
+                              f"score does not reduce to the constant {want!r}: it is {repr(got)[:160]}", line=f.lineno, site=site)
     for cname in GEMINI_CLASSES:
         ci, f = evaluate_func(pm, cname)
         unit, qn = ci.unit, f"{cname}.evaluate"
@@ -287,4 +312,10 @@ def controls(pm, tier):
     mut(G, "            delta = np.sqrt(np.maximum(a + c - 2 * b, 0))", "            delta = np.sqrt(a + c - 2 * b)", "C13-b", "MMD OvA sqrt without floor")
     mut(G, "                gradient = tau_grad / (delta + delta_mask).reshape((1, -1))", "                gradient = tau_grad / delta.reshape((1, -1))", "C13-b", "MMD OvA divides by unmasked zero distances")
     mut(F, "            return hellinger_gemini, gradients * clip_mask", "            return hellinger_gemini, gradients", "C13-c", "Hellinger gradient unmasked")
+    mut(F, "            mutual_information = prediction_entropy - cluster_entropy", "            mutual_information = prediction_entropy - 0.5 * cluster_entropy", "C13-e",
+        "KL does not vanish at independence")
+    mut(G, "            delta = np.sqrt(np.maximum(a + c - 2 * b, 0))", "            delta = np.sqrt(np.maximum(a + c - b, 0))", "C13-e", "MMD does not vanish at independence")
+    mut(F, "        hellinger_gemini = 1 - np.mean(estimates, axis=0)", "        hellinger_gemini = 2 - np.mean(estimates, axis=0)", "C13-e", "Hellinger offset")
+    mut(G, "        N, K = y_pred.shape\n", "        N, K = y_pred.shape\n        if affinity is not getattr(self, '_last', None):\n            self._last, self._cost = affinity, np.ascontiguousarray(affinity)\n        affinity = self._cost\n",
+        "C13-d", "cost matrix memoised on object identity")
     return out
